@@ -65,8 +65,13 @@ def install_rule(run, rule, ast):
                     targets.append(("static v-table pointer", n))
             if n.get("k") == "CallExpr" and (n.get("callee") or "").startswith("std::copy<") and any(x.get("k") == "MemberExpr" and x.get("member") == "slots_strides_ptr" for x in astq.walk(n)):
                 targets.append(("slots and strides", n))
+            if n.get("k") == "BinaryOperator" and n.get("op") == "=" and any(x.get("k") == "MemberExpr" and x.get("member") == "slots_strides_ptr" for x in astq.walk(n["c"][0])):
+                targets.append(("slots and strides", n))      # written element by element
             if n.get("k") == "CXXMemberCallExpr" and (n.get("callee") or "").endswith("::publish_vptrs") or (n.get("k") == "CallExpr" and "::publish_vptrs<" in (n.get("callee") or "")):
                 targets.append(("publication of v-table pointers", n))
+        for need in ("static v-table pointer", "slots and strides", "publication of v-table pointers"):
+            if not any(w == need for w, _ in targets):
+                run.broken.append("%s: no installation of the %s recognised" % (crules.short(f), need))
         for what, n in targets:
             bad = []
             for cls, cn, blk in crules._cdep_conds(f, n) or []:
